@@ -83,6 +83,7 @@ class Listing:
                         toks.append(Tok("L", name=name, bid=bid, at_end=True))
                 ivs.append(toks)
             self.secs.append(ivs)
+        self.other = []            # other-section data emitted by patches
         self.proxy_deleted = {}    # bid -> set(label names)
         self.deleted_blocks = set()
         self.invocations = []      # list of dict(inv, bid, i, lines)
@@ -108,11 +109,31 @@ class Listing:
                    uid=("o", bid, idx), code=False,
                    ann=dict(it.get("ann", {})))
 
-    def patch_tokens(self, lines, inv, fn, code=True):
-        """tokens for one invocation of a text patch"""
+    def patch_tokens(self, lines, inv, fn, code=True, other=None):
+        """tokens for one invocation of a text patch; what the patch puts
+        into other sections (everything behind a {"sec": name} line) is not
+        part of the splice and is recorded in `other` when given"""
         out = []
         k = 0
+        osec = None
+        blob = None
         for ln in lines:
+            if "sec" in ln:
+                osec = ln["sec"]
+                blob = {"sec": osec, "inv": inv, "data": bytearray(),
+                        "labels": []}
+                if other is not None:
+                    other.append(blob)
+                continue
+            if osec is not None:
+                if "l" in ln:
+                    blob["labels"].append(
+                        (ln["l"], len(blob["data"]),
+                         Tok("L", name=ln["l"], bid=None, patch=inv,
+                             pglobal=not ln.get("temp", False))))
+                elif ln.get("k") == "bytes":
+                    blob["data"] += bytes.fromhex(ln["hex"])
+                continue
             if "l" in ln:
                 out.append(Tok("L", name=ln["l"], bid=None, patch=inv,
                                pglobal=not ln.get("temp", False)))
@@ -243,7 +264,25 @@ class Listing:
         for bid, names in self.proxy_deleted.items():
             for nme in names:
                 res[nme] = ("proxydel", bid)
+        for blob in self.other:
+            for nme, off, _ in blob["labels"]:
+                res[nme] = ("other", blob["sec"], blob["inv"], off)
         return res
+
+    @property
+    def expected_extra(self):
+        """section name -> byte strings of the intervals patches add there"""
+        res = {}
+        for blob in self.other:
+            res.setdefault(blob["sec"], []).append(bytes(blob["data"]))
+        return res
+
+    def other_label(self, name):
+        for blob in self.other:
+            for nme, off, tok in blob["labels"]:
+                if nme == name:
+                    return tok, blob, off
+        return None
 
     def code_stream(self, si):
         """byte-carrying tokens of a section in order, with a flag telling
